@@ -291,6 +291,15 @@ func propC28PeerSyncStateMachine(t testing.TB) {
 				}
 				for pidS, mp := range model {
 					expired := mp.seen && clock-mp.lastSeen > cleanupTimeout
+					// The harness moves time by back-dating stored timestamps while the wall clock keeps
+					// running: a peer whose age is within two seconds of the limit may legitimately be on
+					// either side of it. The model follows the implementation there (stated tolerance).
+					if d := clock - mp.lastSeen - cleanupTimeout; mp.seen && d > -2*time.Second && d < 2*time.Second && !ln.connected[pidS] {
+						pidB, _ := peersync.NewPeerID(pidS)
+						_, gerr := store.GetPeerState(pidB)
+						expired = gerr != nil
+						classes["expiry-at-boundary"] = true
+					}
 					if expired && !ln.connected[pidS] {
 						delete(model, pidS)
 						classes["expired-removed"] = true
